@@ -311,9 +311,23 @@ def _real_module_case_impl(args) -> dict:
 				result[p] = type(nodes.by(p)).__name__
 			except Errors.Error as e:
 				result[p] = f'!{type(e).__name__}'
+		# whatever was asked before (expand, siblings, parent, ...): children(p) are the entries directly below p in the tree
+		for p in inner_sample:
+			try:
+				got_children = [n.full_path for n in nodes.children(p)]
+			except Errors.Error as e:
+				got_children = [f'!{type(e).__name__}']
+			if got_children != direct[p]:
+				children_bad.append({'path': p, 'children': got_children[:6], 'tree': direct[p][:6], 'history': 'mixed queries' if mix else 'document order'})
 		return result
 
 	sample = paths if len(paths) <= 1500 else [paths[i] for i in sorted(rnd.sample(range(len(paths)), 1500))]
+	direct: dict[str, list[str]] = {}
+	for q in paths:
+		if '.' in q:
+			direct.setdefault(q.rsplit('.', 1)[0], []).append(q)
+	inner_sample = [q for q in sample if q in direct][:400]
+	children_bad: list[dict] = []
 	base = classes_in_order(sample, False)
 	for variant in range(2):
 		shuffled = list(sample)
@@ -335,7 +349,7 @@ def _real_module_case_impl(args) -> dict:
 		if not same:
 			pluck_bad.append(p)
 	return {'module': module_path, 'tag': tags, 'kids': kids, 'par': par, 'code_paths': paths,
-		'entry_order': list(range(1, len(tags) + 1)), 'mismatches': mismatches[:20], 'n_paths_compared': len(sample), 'pluck_bad': pluck_bad[:5]}
+		'entry_order': list(range(1, len(tags) + 1)), 'mismatches': mismatches[:20], 'n_paths_compared': len(sample), 'pluck_bad': pluck_bad[:5], 'children_bad': children_bad[:5]}
 
 
 def run(ctx: Ctx) -> int:
@@ -419,6 +433,8 @@ def run(ctx: Ctx) -> int:
 		real_entries += len(rc['tag'])
 		for p in rc['pluck_bad'][:1]:
 			violations.append(Violation(f'real-tree:pluck:{rc["module"]}', 'Bijection', f'{rc["module"]}: pluck({p}) is not the entry full_pathfy recorded'))
+		for cb in rc.get('children_bad', [])[:1]:
+			violations.append(Violation(f'real-tree:RelativesAgree:{cb["history"].replace(" ", "-")}', 'RelativesAgree', f'{rc["module"]}: children({cb["path"]}) = {cb["children"]} after {cb["history"]}, the tree has {cb["tree"]}', cb))
 		for mm in rc['mismatches'][:3]:
 			violations.append(Violation(f'order:{rc["module"]}:{mm["document_order"]}->{mm["other_order"]}', 'order-independence', f'{rc["module"]} {mm["path"]}: class {mm["document_order"]} in document order, {mm["other_order"]} after other queries', mm))
 	# the spec's addressing functions evaluated by TLC on the real trees, compared with what the code produced
